@@ -115,7 +115,7 @@ def _pair(ctx, cfg, prog, mod):
         detail = 'outcomes (mutated, bumped) at return: %s' % sorted(summ)
         if not ok:
             w = eng.witness_path(q, i)
-            chain = _chain(eng, prog, q, i)
+            chain = pair.blame_chain(eng, q, i)
             detail += '; a path with a key-set change and no bump exists: ' + ' -> '.join(chain)
             if w:
                 detail += '; events in %s: %s' % (q, [(e['event'], e['what'][-1] if e['what'] else '') for e in w['events']][:12])
@@ -141,26 +141,6 @@ def _pair(ctx, cfg, prog, mod):
     for owner in REPLACE_TABLE:
         if owner not in prog.bodies:
             ctx.ob('ANCHOR', 'missing|' + owner, cfg, False, 'REPLACE table names a function that no longer exists')
-
-
-def _chain(eng, prog, q, i, depth=0, seen=None):
-    """Innermost body whose own events produce (m and not b)."""
-    seen = seen or set()
-    if (q, i) in seen or depth > 12:
-        return [q]
-    seen.add((q, i))
-    w = eng.witness_path(q, i)
-    if not w:
-        return [q]
-    for e in w['events']:
-        if e['event'] in ('call', 'call_m'):
-            cq, ci = e['what'][0], e['what'][1]
-            if (1, 0) in eng.summary.get((cq, ci), ()):
-                return [q] + _chain(eng, prog, cq, ci, depth + 1, seen)
-    ms = [e for e in w['events'] if e['event'] == 'm']
-    if ms:
-        return [q + ' {writes ' + str(ms[0]['what'][-1]) + '}']
-    return [q]
 
 
 # ------------------------------------------------------------------------------------------ GATE
